@@ -17,6 +17,7 @@ import (
 
 	"github.com/idena-network/idena-go/database"
 	dbm "github.com/tendermint/tm-db"
+	"verif/mc/chainmc"
 	"verif/mc/report"
 )
 
@@ -169,7 +170,7 @@ func dump(d dbm.DB) string {
 	return sb.String()
 }
 
-type world struct {
+type bworld struct {
 	base    map[string]string
 	perm    *dbm.MemDB
 	backed  *database.BackedMemDb
@@ -177,8 +178,8 @@ type world struct {
 	permRef string
 }
 
-func newWorld(base map[string]string) *world {
-	w := &world{base: base, perm: dbm.NewMemDB(), ref: dbm.NewMemDB()}
+func newWorld(base map[string]string) *bworld {
+	w := &bworld{base: base, perm: dbm.NewMemDB(), ref: dbm.NewMemDB()}
 	for k, v := range base {
 		w.perm.Set([]byte(k), []byte(v))
 		w.ref.Set([]byte(k), []byte(v))
@@ -188,12 +189,17 @@ func newWorld(base map[string]string) *world {
 	return w
 }
 
-func (w *world) stateKey() string {
+func (w *bworld) stateKey() string {
 	return dump(w.backed.VerifInner()) + "#" + strings.Join(w.backed.VerifTouched(), ",")
 }
 
 func main() {
 	run := report.New("C13")
+	if chainmc.IsWorker() {
+		chainmc.WorkerMain(chainModel(run.Thorough()))
+		return
+	}
+	run.SetBudget(6*60e9, 40*60e9)
 	if run.Replay != "" {
 		replayFile(run)
 		return
@@ -292,7 +298,7 @@ func checkBacked(run *report.Run) {
 		w0 := newWorld(base)
 		seen[w0.stateKey()] = true
 		frontier := []node{{}}
-		build := func(path []op) *world {
+		build := func(path []op) *bworld {
 			w := newWorld(base)
 			for _, o := range path {
 				apply(w.backed, o)
@@ -300,7 +306,7 @@ func checkBacked(run *report.Run) {
 			}
 			return w
 		}
-		sweep := func(w *world, path []op) bool {
+		sweep := func(w *bworld, path []op) bool {
 			before := w.stateKey()
 			for _, r := range reads {
 				got, want := doRead(w.backed, r), doRead(w.ref, r)
@@ -376,7 +382,7 @@ func checkBacked(run *report.Run) {
 	fmt.Printf("C13(a): bases=%d states=%d transitions=%d read-evaluations=%d\n", len(bases), states, transitions, evals)
 }
 
-func viewDump(w *world) string { return dump(w.backed) }
+func viewDump(w *bworld) string { return dump(w.backed) }
 
 func classify(s string) string {
 	switch {
